@@ -167,7 +167,16 @@ func buildCanon(p *Prog, fis ...*FuncInfo) {
 				if !ok || !known {
 					continue
 				}
+				var stmts []ast.Stmt
 				for _, st := range cs.Clause.Body {
+					ast.Inspect(st, func(m ast.Node) bool {
+						if as, ok := m.(*ast.AssignStmt); ok {
+							stmts = append(stmts, as)
+						}
+						return true
+					})
+				}
+				for _, st := range stmts {
 					as, ok := st.(*ast.AssignStmt)
 					if !ok || len(as.Lhs) != 1 || len(as.Rhs) != 1 {
 						continue
@@ -177,6 +186,24 @@ func buildCanon(p *Prog, fis ...*FuncInfo) {
 						case "internal/parser.newYamlNode", "internal/parser.newPromQLExpr", "internal/parser.newYamlMap":
 							if o := objOf(info, as.Lhs[0]); o != nil {
 								canon[o] = role + "Part"
+								// the constructed value handed on to another local in the same case
+								// (`yn := newYamlNode(…); recordPart, last = yn, …`)
+								for _, st2 := range cs.Clause.Body {
+									ast.Inspect(st2, func(m ast.Node) bool {
+										as2, ok := m.(*ast.AssignStmt)
+										if !ok || len(as2.Lhs) != len(as2.Rhs) {
+											return true
+										}
+										for i, r := range as2.Rhs {
+											if objOf(info, r) == o {
+												if t := objOf(info, as2.Lhs[i]); t != nil && t != o {
+													canon[t] = role + "Part"
+												}
+											}
+										}
+										return true
+									})
+								}
 							}
 						}
 					}
